@@ -1,5 +1,5 @@
 /-
-Right-hand sides of the standard form: `≥ 0` with exact comparisons, `≥ −tol` in general.
+Right-hand sides of the standard form are `≥ 0` (exact sign test of `EqualityConstraint::new`).
 -/
 import Rooc.Proofs.StdMain
 namespace Rooc
@@ -7,44 +7,28 @@ namespace StdShape
 variable {K : Type} [Field K] [LinearOrder K] [IsStrictOrderedRing K] [FloorRing K]
 open StdSem StdLayout StdSplit StdNorm StdBounds StdSpec StdMain Standardize
 
-/-- `float_lt(rhs, 0)` at `Ext K` on finite numbers. -/
-theorem flt_fin (t r : K) :
-    Tol.flt (Ext.fin t : Ext K) (Ext.fin r) Arith.zero = true ↔ r < 0 ∧ ¬ |r| < t := by
-  simp only [Tol.flt, Tol.feq, Arith.lt, Arith.abs, Arith.sub, Arith.zero, Arith.ofInt, Ext.sub, Ext.neg, Ext.add,
-    Ext.abs, Ext.lt, Bool.and_eq_true, Bool.not_eq_true']
-  simp only [ef_ofInt, Int.cast_zero, ef_neg, neg_zero, ef_add, add_zero, ef_lt, decide_eq_true_eq]
-  by_cases hr : r < 0
-  · simp [hr, Ext.lt, abs_of_neg hr]
-  · simp [hr, Ext.lt]
+/-- `rhs < 0.0` at `Ext K` on finite numbers. -/
+theorem lt_zero_fin (r : K) : Arith.lt (Ext.fin r : Ext K) Arith.zero = true ↔ r < 0 := by
+  simp [Arith.lt, Arith.zero, Arith.ofInt, Ext.lt]
 
-theorem eqNew_rhs_ge (t : K) (ht : 0 ≤ t) (c : List (Ext K)) (rhs : Ext K) (hr : isFin rhs) :
-    -t ≤ toK (eqNew (Ext.fin t) c rhs).rhs ∧ (t = 0 → 0 ≤ toK (eqNew (Ext.fin t) c rhs).rhs) := by
+/-- the exact sign test makes every right-hand side non-negative. -/
+theorem eqNew_rhs_nonneg (c : List (Ext K)) (rhs : Ext K) (hr : isFin rhs) : 0 ≤ toK (eqNew c rhs).rhs := by
   obtain ⟨r, rfl⟩ := isFin_iff.1 hr
   unfold eqNew
-  by_cases h : Tol.flt (Ext.fin t : Ext K) (Ext.fin r) Arith.zero = true
+  by_cases h : Arith.lt (Ext.fin r : Ext K) Arith.zero = true
   · rw [if_pos h]
-    have := (flt_fin t r).1 h
+    have := (lt_zero_fin r).1 h
     simp only [Arith.neg, Ext.neg, toK_fin, ef_neg]
-    constructor
-    · linarith [this.1]
-    · intro _; linarith [this.1]
+    linarith
   · rw [if_neg h]
-    have hn : ¬ (r < 0 ∧ ¬ |r| < t) := fun hc => h ((flt_fin t r).2 hc)
-    simp only [toK_fin]
-    by_cases hneg : r < 0
-    · have hlt : |r| < t := by by_contra hc; exact hn ⟨hneg, hc⟩
-      have := abs_lt.1 hlt
-      constructor
-      · linarith [this.1]
-      · intro h0; rw [h0] at hlt; exact absurd hlt (not_lt.2 (abs_nonneg r))
-    · have : 0 ≤ r := not_lt.1 hneg
-      exact ⟨by linarith, fun _ => this⟩
+    have : ¬ r < 0 := fun hc => h ((lt_zero_fin r).2 hc)
+    simpa using not_lt.1 this
 
 /-- every normalised row is `eqNew` of something with the right-hand side of an input row. -/
-theorem normalizeAll_rhs (tol : Ext K) : ∀ (rows : List (LinRow (Ext K))) (total sl su : Nat)
+theorem normalizeAll_rhs : ∀ (rows : List (LinRow (Ext K))) (total sl su : Nat)
     (srows : List (StdRow (Ext K))) (names : List String) (total' : Nat),
-    normalizeAll tol total sl su rows = .ok (srows, names, total') →
-    ∀ sr ∈ srows, ∃ r ∈ rows, ∃ c, sr = eqNew tol c r.rhs
+    normalizeAll total sl su rows = .ok (srows, names, total') →
+    ∀ sr ∈ srows, ∃ r ∈ rows, ∃ c, sr = eqNew c r.rhs
   | [], total, sl, su, srows, names, total', h, sr, hsr => by
     simp only [normalizeAll, Except.ok.injEq, Prod.mk.injEq] at h
     obtain ⟨rfl, -, -⟩ := h
@@ -52,7 +36,7 @@ theorem normalizeAll_rhs (tol : Ext K) : ∀ (rows : List (LinRow (Ext K))) (tot
   | r :: rs, total, sl, su, srows, names, total', h, sr, hsr => by
     simp only [normalizeAll] at h
     split at h
-    · cases hrec : normalizeAll tol total sl su rs with
+    · cases hrec : normalizeAll total sl su rs with
       | error e => simp [hrec] at h
       | ok res =>
         obtain ⟨rows', names', t'⟩ := res
@@ -60,9 +44,9 @@ theorem normalizeAll_rhs (tol : Ext K) : ∀ (rows : List (LinRow (Ext K))) (tot
         obtain ⟨rfl, -, -⟩ := h
         rcases List.mem_cons.1 hsr with rfl | hsr
         · exact ⟨r, by simp, _, rfl⟩
-        · obtain ⟨r', hr', c, hc⟩ := normalizeAll_rhs tol rs total sl su rows' names' t' hrec sr hsr
+        · obtain ⟨r', hr', c, hc⟩ := normalizeAll_rhs rs total sl su rows' names' t' hrec sr hsr
           exact ⟨r', List.mem_cons_of_mem _ hr', c, hc⟩
-    · cases hrec : normalizeAll tol (total+1) (sl+1) su rs with
+    · cases hrec : normalizeAll (total+1) (sl+1) su rs with
       | error e => simp [hrec] at h
       | ok res =>
         obtain ⟨rows', names', t'⟩ := res
@@ -70,9 +54,9 @@ theorem normalizeAll_rhs (tol : Ext K) : ∀ (rows : List (LinRow (Ext K))) (tot
         obtain ⟨rfl, -, -⟩ := h
         rcases List.mem_cons.1 hsr with rfl | hsr
         · exact ⟨r, by simp, _, rfl⟩
-        · obtain ⟨r', hr', c, hc⟩ := normalizeAll_rhs tol rs (total+1) (sl+1) su rows' names' t' hrec sr hsr
+        · obtain ⟨r', hr', c, hc⟩ := normalizeAll_rhs rs (total+1) (sl+1) su rows' names' t' hrec sr hsr
           exact ⟨r', List.mem_cons_of_mem _ hr', c, hc⟩
-    · cases hrec : normalizeAll tol (total+1) sl (su+1) rs with
+    · cases hrec : normalizeAll (total+1) sl (su+1) rs with
       | error e => simp [hrec] at h
       | ok res =>
         obtain ⟨rows', names', t'⟩ := res
@@ -80,22 +64,21 @@ theorem normalizeAll_rhs (tol : Ext K) : ∀ (rows : List (LinRow (Ext K))) (tot
         obtain ⟨rfl, -, -⟩ := h
         rcases List.mem_cons.1 hsr with rfl | hsr
         · exact ⟨r, by simp, _, rfl⟩
-        · obtain ⟨r', hr', c, hc⟩ := normalizeAll_rhs tol rs (total+1) sl (su+1) rows' names' t' hrec sr hsr
+        · obtain ⟨r', hr', c, hc⟩ := normalizeAll_rhs rs (total+1) sl (su+1) rows' names' t' hrec sr hsr
           exact ⟨r', List.mem_cons_of_mem _ hr', c, hc⟩
     · cases h
 
-/-- **right-hand sides**: `≥ −tol`, and `≥ 0` when the sign test is exact. -/
-theorem rhs_ge (t : K) (ht : 0 ≤ t) (lm : LinModel (Ext K)) (hW : WF lm) {sm : StdModel (Ext K)}
-    (hs : standardize (Ext.fin t) lm = .ok sm) :
-    ∀ r ∈ sm.rows, -t ≤ toK r.rhs ∧ (t = 0 → 0 ≤ toK r.rhs) := by
-  obtain ⟨sm', srows, names, total, hstd, hnorm, -, hr, -, -, -⟩ := standardize_spec (Ext.fin t) lm hW
+/-- **right-hand sides are non-negative** — unconditionally. -/
+theorem rhs_nonneg (lm : LinModel (Ext K)) (hW : WF lm) {sm : StdModel (Ext K)}
+    (hs : standardize lm = .ok sm) : ∀ r ∈ sm.rows, 0 ≤ toK r.rhs := by
+  obtain ⟨sm', srows, names, total, hstd, hnorm, -, hr, -, -, -⟩ := standardize_spec lm hW
   rw [hs] at hstd; cases hstd
   intro r hr'
   rw [hr] at hr'
   simp only [List.mem_map] at hr'
   obtain ⟨sr, hsr, rfl⟩ := hr'
-  obtain ⟨r0, hr0, c, rfl⟩ := normalizeAll_rhs _ _ _ _ _ _ _ _ hnorm sr hsr
-  exact eqNew_rhs_ge t ht c r0.rhs (splitRows_ok lm hW r0 hr0).rhs
+  obtain ⟨r0, hr0, c, rfl⟩ := normalizeAll_rhs _ _ _ _ _ _ _ hnorm sr hsr
+  exact eqNew_rhs_nonneg c r0.rhs (splitRows_ok lm hW r0 hr0).rhs
 
 end StdShape
 end Rooc
